@@ -168,12 +168,24 @@ def handleVOp (acc : Acc) (h : VHist) (kv : KV) (line : String) : Acc × VHist :
       let m := Vamm.swapInput pre env snd dir amt lim cgo
       match m with
       | .ok (mv, mo) =>
-        if !ok then reportMany acc "DISAGREE" ["C01", "C17", "C15", "C09", "C14"] "swapin-accept(model ok, impl err)" line
-        else if mo.quoteAmt != eq || mo.baseAmt != eb then reportMany acc "DISAGREE" ["C01", "C17"] "swapin-amounts" line
-        else if !sameV mv post then reportMany acc "DISAGREE" ["C01", "C17", "C18"] s!"swapin-state:{diffV mv post}" line
+        if !ok then
+          -- the implementation rejected what the model accepts: the limit is the cause iff the limit-free twin passed
+          reportMany acc "DISAGREE" (if kv.bool "tw" && lim != 0 then ["C17"] else ["C01", "C15"]) "swapin-accept(model ok, impl err)" line
+        else if mo.quoteAmt != eq || mo.baseAmt != eb then reportMany acc "DISAGREE" ["C01"] "swapin-amounts" line
+        else if !sameV mv post then
+          reportMany acc "DISAGREE" ((if mv.st.snaps != post.st.snaps then ["C18"] else []) ++
+            (if mv.st.quote != post.st.quote || mv.st.base != post.st.base || mv.st.net.toInt != post.st.net.toInt then ["C01"] else []))
+            s!"swapin-state:{diffV mv post}" line
         else acc
-      | .error _ =>
-        if ok then reportMany acc "DISAGREE" ["C01", "C17", "C15", "C09", "C14"] "swapin-accept(model err, impl ok)" line else acc
+      | .error e =>
+        if ok then reportMany acc "DISAGREE"
+          (match e with
+           | .guard 11 | .guard 12 | .guard 13 | .guard 14 => ["C17"]
+           | .guard 20 => ["C15"]
+           | .guard 21 => ["C01"]   -- the band test on the post-trade price follows the amounts; Spec.C15 judges the price itself
+           | .guard 10 => ["C14"]
+           | .unauthorized => ["C09"]
+           | _ => ["C01"]) "swapin-accept(model err, impl ok)" line else acc
     | "swapout" =>
       let dir := dirOf (kv.nat "dir")
       let amt := kv.nat "amt"
@@ -205,12 +217,24 @@ def handleVOp (acc : Acc) (h : VHist) (kv : KV) (line : String) : Acc × VHist :
       let m := Vamm.swapOutput pre env snd dir amt lim
       match m with
       | .ok (mv, mo) =>
-        if !ok then reportMany acc "DISAGREE" ["C01", "C17", "C15", "C09", "C14"] "swapout-accept(model ok, impl err)" line
-        else if mo.quoteAmt != eq || mo.baseAmt != eb then reportMany acc "DISAGREE" ["C01", "C17"] "swapout-amounts" line
-        else if !sameV mv post then reportMany acc "DISAGREE" ["C01", "C17", "C18"] s!"swapout-state:{diffV mv post}" line
+        if !ok then
+          -- the implementation rejected what the model accepts: the limit is the cause iff the limit-free twin passed
+          reportMany acc "DISAGREE" (if kv.bool "tw" && lim != 0 then ["C17"] else ["C01", "C15"]) "swapout-accept(model ok, impl err)" line
+        else if mo.quoteAmt != eq || mo.baseAmt != eb then reportMany acc "DISAGREE" ["C01"] "swapout-amounts" line
+        else if !sameV mv post then
+          reportMany acc "DISAGREE" ((if mv.st.snaps != post.st.snaps then ["C18"] else []) ++
+            (if mv.st.quote != post.st.quote || mv.st.base != post.st.base || mv.st.net.toInt != post.st.net.toInt then ["C01"] else []))
+            s!"swapout-state:{diffV mv post}" line
         else acc
-      | .error _ =>
-        if ok then reportMany acc "DISAGREE" ["C01", "C17", "C15", "C09", "C14"] "swapout-accept(model err, impl ok)" line else acc
+      | .error e =>
+        if ok then reportMany acc "DISAGREE"
+          (match e with
+           | .guard 11 | .guard 12 | .guard 13 | .guard 14 => ["C17"]
+           | .guard 20 => ["C15"]
+           | .guard 21 => ["C01"]   -- the band test on the post-trade price follows the amounts; Spec.C15 judges the price itself
+           | .guard 10 => ["C14"]
+           | .unauthorized => ["C09"]
+           | _ => ["C01"]) "swapout-accept(model err, impl ok)" line else acc
     | "q_twap" =>
       let iv := kv.nat "iv"
       let r := kv.nat "r"
